@@ -41,7 +41,7 @@ structure Num (α : Type) where
   rpow : α → α → R α             -- `x ** y`, x > 0
   sqrt : α → R α                 -- `math.sqrt`, x ≥ 0
   cbrt : α → R α                 -- `math.cbrt`
-  ln : α → R α                   -- `math.log(x)`, x > 0
+  logb : α → α → R α             -- `math.log(x, base)` = log x / log base; x, base > 0, base ≠ 1
   sin : α → R α
   cos : α → R α
   isZero : α → Bool              -- `x == 0`
